@@ -24,3 +24,5 @@ def run(chk):
     X.rule_state_clone_deep(chk, "C04.10")
     from .c10 import rule_type_copy
     rule_type_copy(chk, "C04.11")
+    F.rule_admission_guard(chk, ev, "C04.12")
+    F.rule_volatility(chk, ea, "C04.13")
